@@ -582,10 +582,10 @@ force_lazy_struct(CTypeDescrObject *ct)
 static PyObject *ctypeget_fields(CTypeDescrObject *ct, void *context)
 {
     if (ct->ct_flags & (CT_STRUCT | CT_UNION)) {
-        assert((ct->ct_flags & CT_IS_OPAQUE) == 0);
         if (!cffi_check_flag(ct->ct_unrealized_struct_or_union)) {
             CFieldObject *cf;
             PyObject *res;
+            assert((ct->ct_flags & CT_IS_OPAQUE) == 0);
             if (force_lazy_struct(ct) < 0)
                 return NULL;
             res = PyList_New(0);
